@@ -23,3 +23,12 @@ pub fn shim_string_append_slash(s: String) -> (r: String)
 { s + "/" }
 #[verifier::external_body]
 pub fn shim_str_to_owned(s: &str) -> (r: String) ensures r@ == s@ { s.to_owned() }
+// T7x (ZipFile::is_dir): `s.chars().rev().next()` -- ASSUMED std str semantics (the last char, if any)
+#[verifier::external_body]
+pub fn shim_str_last_char_s(s: &str) -> (r: Option<char>)
+    ensures (s@.len() == 0 ==> r is None), (s@.len() > 0 ==> r == Some(s@.last()))
+{ s.chars().rev().next() }
+// ASSUMED: Option::map_or applies the closure to the payload, or yields the default
+pub assume_specification<T, U, F: FnOnce(T) -> U> [Option::<T>::map_or] (o: Option<T>, default: U, f: F) -> (r: U)
+    requires o matches Some(x) ==> f.requires((x,)),
+    ensures o is None ==> r == default, o matches Some(x) ==> f.ensures((x,), r);
